@@ -136,7 +136,16 @@ func (w *wrapRepo) Append(name string, snapshots <-chan *asset.Snapshot) error {
 	}
 	batch := helper.ChanToSlice(snapshots)
 	call := w.rec.clock.Add(1)
-	err := w.inner.Append(name, helper.SliceToChan(batch))
+	var in <-chan *asset.Snapshot = helper.SliceToChan(batch)
+	if w.calls.Load()%2 == 0 { // a buffered channel that already holds the whole batch
+		c := make(chan *asset.Snapshot, len(batch)+2)
+		for _, s := range batch {
+			c <- s
+		}
+		close(c)
+		in = c
+	}
+	err := w.inner.Append(name, in)
 	out := "ok"
 	if err != nil {
 		out = "err"
